@@ -4,6 +4,7 @@
 use serde_json::{json, Value};
 use std::panic;
 
+mod c08;
 mod c12;
 mod c16;
 mod grms;
@@ -21,6 +22,7 @@ fn rerun(w: &Value) -> Option<Outcome> {
         "c19_span" => Some(c19::run_span(w["input"]["text"].as_str()?, w["input"]["start"].as_u64()? as usize, w["input"]["end"].as_u64()? as usize)),
         "c12_header" => Some(c12::run_header(w["input"]["text"].as_str()?)),
         "c20_u8" => Some(c20::run_u8(w["input"]["kind"].as_str()?, w["input"]["n"].as_u64()? as usize)),
+        "c08_span" => Some(c08::run(w["input"]["grammar"].as_str()?, w["input"]["input"].as_str()?)),
         "c16_table" => Some(c16::run(w["input"]["grammar"].as_str()?)),
         "c19_line" => Some(c19::run_line(w["input"]["text"].as_str()?, w["input"]["byte"].as_u64()? as usize)),
         _ => None,
@@ -31,6 +33,7 @@ fn search(unit: &str, tag: &str, tier: &str) -> Option<Value> {
     match unit {
         "c19_queries" => c19::search(tag, tier),
         "c12_header" => c12::search(tag, tier),
+        "c08_reduce" => c08::search(tag, tier),
         "c16_new" | "c16_codec" => c16::search(tag, tier),
         "c20_grammar" => c20::search(tag, tier),
         _ => None,
